@@ -1001,8 +1001,16 @@ func (p *partition) handleLeaderOffsetRequest(msg *nats.Msg) {
 		p.srv.logger.Errorf("Invalid leader epoch offset request for partition %s: %v", p, err)
 		return
 	}
+	endOffset := p.log.LastOffsetForLeaderEpoch(req.LeaderEpoch)
+	if req.LeaderEpoch < p.log.LastLeaderEpoch() {
+		// A later epoch exists, so this is the start offset of the first epoch
+		// after the requested one. The follower keeps everything up to and
+		// including the offset it is told: the last message it may keep is the
+		// one before that start offset.
+		endOffset--
+	}
 	resp, err := proto.MarshalLeaderEpochOffsetResponse(&proto.LeaderEpochOffsetResponse{
-		EndOffset: p.log.LastOffsetForLeaderEpoch(req.LeaderEpoch),
+		EndOffset: endOffset,
 	})
 	if err != nil {
 		panic(err)
